@@ -17,6 +17,11 @@ theorem Reach.trans {a b c : Id} (h1 : Reach succ a b) (h2 : Reach succ b c) : R
 
 theorem Reach.single {a b : Id} (h : b ∈ succ a) : Reach succ a b := Reach.step h (Reach.refl b)
 
+theorem reach_mono {s1 s2 : Id → List Id} (h : ∀ x, ∀ p ∈ s1 x, p ∈ s2 x) {x y : Id} (hr : Reach s1 x y) : Reach s2 x y := by
+  induction hr with
+  | refl _ => exact Reach.refl _
+  | step hs _ ih => exact Reach.step (h _ _ hs) ih
+
 /-- seen only grows -/
 theorem iter_mono : ∀ fuel todo seen, ∀ s ∈ seen, s ∈ iter succ fuel todo seen := by
   intro fuel
